@@ -18,6 +18,7 @@
 import SfModel.Basic
 import SfModel.SmallSession
 import SfModel.Avr
+import SfModel.Ircam
 import Driver.Util
 open Sf (hexBytes hexFixed parseHexBytes parseHexNat Byte)
 open Sf.Small
@@ -62,8 +63,16 @@ def avr : Container where
   parse := Sf.Avr.parse
   rate r := some r
 
+def ircam : Container where
+  spec toks :=
+    let c : Sf.Ircam.Cfg := { codec := codecOf toks, endian := kvNat toks "endian" 0, ch := kvNat toks "ch" 1, sr := kvNat toks "sr" 1 }
+    if decide c.wf then some (Sf.Ircam.spec c) else none
+  parse := Sf.Ircam.parse
+  rate := Sf.Ircam.rateQ
+
 def containerOf (s : String) : Option Container :=
   if s == "avr" then some avr
+  else if s == "ircam" then some ircam
   else none
 
 def answer (ct : Container) (line : String) : String :=
